@@ -37,6 +37,16 @@ def parse_hex_complex(tokens):
     return [(v[i], v[i + 1]) for i in range(0, len(v), 2)]
 
 
+def parse_hex_complex_opt(tokens):
+    """None when a value is not finite (the solvers return NaN / inf for an exactly singular system)"""
+    import math
+    f = [float.fromhex(t) for t in tokens]
+    if not all(math.isfinite(x) for x in f):
+        return None
+    v = [Fraction(x) for x in f]
+    return [(v[i], v[i + 1]) for i in range(0, len(v), 2)]
+
+
 def parse_rat_complex(tokens):
     v = [Fraction(t) for t in tokens]
     return [(v[i], v[i + 1]) for i in range(0, len(v), 2)]
@@ -123,7 +133,7 @@ def apply_tie(ctx, ncases):
     exact = solved = refused = 0
     worst = 0.0
     for k, (t, r, c, e, m) in enumerate(cases):
-        ctx.count(("apply", t, r, c, k))
+        ctx.count()
         fline, aline, mline = cl[2 * k].split(), cl[2 * k + 1].split(), ml[k].split()
         p = max(r, c)
         where = "%s %dx%d" % (t, r, c)
@@ -274,10 +284,10 @@ def solve_tie(ctx, ncases):
     blocks = mout.split("endsystem\n")
     bad = None
     bi = 0
-    nexact = ntol = nx = ne = 0
+    nexact = ntol = nx = ne = nill = 0
     worst_x = worst_e = 0.0
     for ci, (sc, (s, text, rc, out, err)) in enumerate(zip(cases, cres)):
-        ctx.count(("solve", sc.typ, sc.r, sc.c, ci))
+        ctx.count()
         where = "%s %dx%d" % (sc.typ, sc.r, sc.c)
         if meta[ci] is None:
             sig = vplib.asan_signature(err) or {"kind": "fault", "error": "exit %d" % rc, "function": None}
@@ -320,11 +330,12 @@ def solve_tie(ctx, ncases):
                 b = parse_hex_complex(p_[6 + 2 * m_ * n_:6 + 2 * m_ * n_ + 2 * m_])
                 csys.append({"m": m_, "n": n_, "a": a, "b": b, "x": None})
             elif p_[0] == "X" and csys:
-                csys[-1]["x"] = parse_hex_complex(p_[2:])
+                csys[-1]["x"] = parse_hex_complex_opt(p_[2:])
             elif p_[0] == "E" and len(p_) > 2:
-                cE = parse_hex_complex(p_[2:])
+                cE = parse_hex_complex_opt(p_[2:])
         exact_type = not calcore.has_leak(sc.typ)
         problem = None
+        illc = False
         for k, cs in enumerate(csys):
             if k >= len(msys):
                 problem = "library assembled more systems than the model"
@@ -359,14 +370,26 @@ def solve_tie(ctx, ncases):
                 scale = max([abs(v) for v in mx] + [1.0])
                 if scale < 1e3 and len(mx) == len(cx_):
                     d = max(abs(u - v) for u, v in zip(mx, cx_)) / scale
-                    worst_x = max(worst_x, d)
                     if d > 1e-7:
+                        # ill-conditioned draw?  LU with pivoting / QR are backward stable: the library's x
+                        # must satisfy the normal equations A^H (A x - b) = 0 of the exact system to rounding
+                        ra = [[complex(float(a_), float(b_)) for a_, b_ in row[0]] for row in ms_["rows"]]
+                        rb = [complex(float(row[1][0]), float(row[1][1])) for row in ms_["rows"]]
+                        res = [sum(a_ * x_ for a_, x_ in zip(r_, cx_)) - b_ for r_, b_ in zip(ra, rb)]
+                        grad = [sum(r_[j].conjugate() * e_ for r_, e_ in zip(ra, res)) for j in range(len(cx_))]
+                        na = sum(abs(a_) ** 2 for r_ in ra for a_ in r_) ** 0.5
+                        den = na * na * max(abs(v) for v in cx_) + na * max([abs(b_) for b_ in rb] + [0.0]) + 1e-300
+                        if max(abs(g_) for g_ in grad) / den <= 1e-10:
+                            nill += 1
+                            illc = True
+                            continue
                         problem = "system %d: solution differs from the model's exact LU / least-squares solution by %.3g" % (k, d)
                         break
+                    worst_x = max(worst_x, d)
                     nx += 1
         if problem is None and len(csys) < len([m_ for m_ in msys]) and all(m_["status"] in ("ok", "rows") for m_ in msys):
             problem = "library assembled %d systems, model %d" % (len(csys), len(msys))
-        if problem is None and mE is not None and cE is not None:
+        if problem is None and mE is not None and cE is not None and not illc:
             me = [complex(float(a_), float(b_)) for a_, b_ in mE]
             ce = [complex(float(a_), float(b_)) for a_, b_ in cE]
             scale = max([abs(v) for v in me] + [1.0])
@@ -388,6 +411,7 @@ def solve_tie(ctx, ncases):
     ctx.extra["solve_tie_systems_exact"] = nexact
     ctx.extra["solve_tie_systems_1e-12 (leakage mean divided)"] = ntol
     ctx.extra["solve_tie_solutions_compared"] = nx
+    ctx.extra["solve_tie_solutions_ill_conditioned_skipped"] = nill
     ctx.extra["solve_tie_error_term_vectors_compared"] = ne
     ctx.extra["solve_tie_worst_x_rel_diff"] = worst_x
     ctx.extra["solve_tie_worst_e_rel_diff"] = worst_e
